@@ -729,10 +729,13 @@ func (stmt *Statement) SelectAndOmitColumns(requireCreate, requireUpdate bool) (
 	}
 
 	if stmt.Schema != nil {
-		for _, field := range stmt.Schema.FieldsByName {
+		for _, field := range stmt.Schema.Fields {
 			name := field.DBName
 			if name == "" {
 				name = field.Name
+			} else if stmt.Schema.FieldsByDBName[name] != field {
+				// a shadowed field: the column belongs to another (effective) field
+				continue
 			}
 
 			if requireCreate && !field.Creatable {
